@@ -311,6 +311,7 @@ def run(ctx, crate):
     rule_siblings(ctx, crate, rows)
     rule_constructors(ctx, crate)
     rule_rayon_shares_bar(ctx, crate)
+    rule_wrapper_impl_bounds(ctx, crate)
     rule_rayon_split_no_finish(ctx, crate)
     # "... for every split of a parallel iterator across worker threads" (and clones used from several threads): the counting
     # primitive the adaptors call is one atomic read-modify-write
@@ -574,3 +575,32 @@ def rule_rayon_split_no_finish(ctx, crate, rule="R-RAYON-SPLIT-NO-FINISH"):
                       "the iterator handed to every part of a split rayon producer (%s) finishes the bar when that part runs out (%s): the first exhausted part sets the shared "
                       "position to the length while the other parts still count - `par_iter().progress().rev()/.zip(..)/.chunks(..)` end near 2 x len" % (head, K.meth(hit[0]) if hit else ""), cfg)
     ctx.floor(rule, n, 2, cfg, "iterator methods of the type handed to rayon splits")
+
+
+WRAPPER_TYPES = ("iter::ProgressBarIter", "rayon::ProgressProducer", "rayon::ProgressPart", "rayon::ProgressConsumer", "rayon::ProgressFolder")
+OWN_TRAITS = ("std::clone::Clone", "std::fmt::Debug", "std::marker::Send", "std::marker::Sync", "std::marker::Unpin", "std::ops::Drop")
+
+
+def rule_wrapper_impl_bounds(ctx, crate, rule="R-WRAP-IMPL-BOUNDS"):
+    """"does not change the items seen by the caller", also through what the adaptor *claims* about itself: every trait the
+    wrapper implements is a promise the standard library and other adaptors act on without calling any method
+    (`FusedIterator` makes `.fuse()` a pass-through, `ExactSizeIterator`/`TrustedLen` size buffers, `DoubleEndedIterator` lets
+    `rev()` compile). The wrapper only forwards, so it can keep such a promise exactly when the wrapped value makes it: the
+    impl of trait Tr for a wrapper is bounded by `Inner: Tr`. Read from the impl headers (marker impls have no bodies): an impl
+    whose bounds do not mention the trait itself on a type parameter is reported."""
+    cfg = crate.config
+    n = 0
+    for im in crate.impls:
+        head = im.get("self_head") or ""
+        if head not in WRAPPER_TYPES or im["trait"] in OWN_TRAITS or im["file"] in K.TEST_DOUBLE_FILES:
+            continue
+        n += 1
+        tr = im["trait"]
+        ok = any(p.startswith("TraitPredicate(<") and (" as %s>" % tr in p or " as %s<" % tr in p) and "polarity:Positive" in p for p in im["preds"])
+        ctx.check(ok, rule, "bounded-by-inner:%s:%s" % (head.rsplit("::", 1)[-1], tr.rsplit("::", 1)[-1]), "<%s as %s>" % (im["self_ty"], tr), "%s:%d" % (im["file"], im["line"]),
+                  "the wrapper implements %s only for an inner value that implements it" % tr.rsplit("::", 1)[-1],
+                  "%s implements %s without requiring it of the wrapped value (bounds: %s): the wrapper forwards to the inner value and cannot keep a promise the inner "
+                  "value does not make - e.g. FusedIterator for any Iterator turns `.fuse()` into a pass-through that keeps yielding after the first None" % (
+                      im["self_ty"], tr, "; ".join(p.split(",")[0].replace("TraitPredicate(", "") for p in im["preds"] if "Sized" not in p) or "none"), cfg)
+    floor = 8 + (4 if "tokio" in crate.features else 0) + (1 if "futures" in crate.features else 0) + (9 if "rayon" in crate.features else 0)
+    ctx.floor(rule, n, floor, cfg, "trait impls of the adaptor types")
